@@ -37,11 +37,23 @@ func c13Exec(c *mc.Ctx, v interface{}) {
 	ref := refcbor.Deterministic(cs.input)
 	verdict, detail := c13Run(cs.input)
 	c.Eval()
-	c.State(cs.input)
+	byConstruction := cs.family == "bytes" || cs.family == "alpha" // every string is generated exactly once
+	if byConstruction {
+		c.StatesByConstruction(1)
+	} else {
+		c.State(cs.input)
+	}
 	c.Sample(fmt.Sprintf("%s %s -> impl %s, reference valid=%v", cs.family, hx(cs.input), verdict, ref == nil))
 	key := cs.CaseKey()
+	nontrivial := func() {
+		if byConstruction {
+			c.NontrivialByConstruction(1)
+		} else {
+			c.Nontrivial(cs.input)
+		}
+	}
 	if ref == nil {
-		c.Nontrivial(cs.input)
+		nontrivial()
 		if verdict != "accept" {
 			c.Outcome("VALID refused")
 			c.Fail(key, "input in core deterministic form was refused", hx(cs.input)+" "+cs.note, "nil", verdict+": "+detail)
@@ -55,7 +67,7 @@ func c13Exec(c *mc.Ctx, v interface{}) {
 		c.Fail(key, "input that is not deterministic / not well-formed was accepted", hx(cs.input)+" "+cs.note, "error or panic ("+ref.Error()+")", "nil")
 		return
 	}
-	c.Nontrivial(cs.input)
+	nontrivial()
 	c.Outcome("invalid, " + verdict)
 }
 
